@@ -181,10 +181,9 @@ theorem step_tracks (s : State) (g : Ghost) (h : Rel s.queue g)
     · exact h
     · simp only [stepConn]; split <;> exact h
   | disc c =>
-    simp only [step, Op.conn, track]
-    split
-    · simp only [reduceCtorEq, false_and, if_false]; exact h
-    · simp only [true_and]; exact free_rel h c
+    cases hc : s.base.conns[c]? with
+    | none => simp only [step, Op.conn, hc, track, reduceCtorEq, false_and, if_false]; exact h
+    | some conn => simp only [step, Op.conn, hc, track, true_and]; exact free_rel h c
   | pdu c bytes =>
     rcases bytes with _ | ⟨o, rest⟩
     · simp only [step, Op.conn, track]; split <;> exact h
@@ -280,9 +279,13 @@ theorem execute_applies_in_order (s : State) (c S : Nat) (conn : Conn) (g : Ghos
   simp only [step, Op.conn, hc, hq, handleExecute, elementsOf_rel h ho, hfree,
     show ¬ ((0x18 : UInt8) = 0x16) by decide, if_false, if_true,
     show ¬ ((1 : UInt8) ≠ 0 ∧ (1 : UInt8) ≠ 1) by decide]
-  cases applyQueued s.base.decl conn.sec s.base.mem conn.cfg 0 g.items with
+  cases hap : applyQueued s.base.decl conn.sec s.base.mem conn.cfg 0 g.items with
   | none => rfl
-  | some r => cases r.fail <;> rfl
+  | some r =>
+    obtain ⟨m, cf, cb, fail⟩ := r
+    cases fail with
+    | none => rfl
+    | some p => obtain ⟨rc, hd⟩ := p; rfl
 
 /-- the order matters and is the queue order: two queued writes to the same byte, the later wins -/
 example :
